@@ -9,6 +9,8 @@ import (
 	"github.com/ClickHouse/ch-go/proto"
 
 	"verif/internal/core"
+	"verif/internal/ref"
+	"verif/internal/val"
 )
 
 // c16EnumReinfer: one ColEnum object is re-inferred between blocks with enum definitions that
@@ -258,5 +260,96 @@ func c16DT64Reinfer(r *core.Run, ci int64) {
 	}
 	if encodes >= 1 && changes >= 1 {
 		r.NonTrivial("dt64-reinfer", strings.Join(hist, ";"))
+	}
+}
+
+// c16AutoTarget: a *proto.ColAuto bound as a result target across blocks, as AutoResult /
+// Results.Auto() keep it: valid blocks, blocks that fail part-way (truncated, or with the last
+// bytes overwritten so that a key / value is rejected) and explicit Resets in any order; after
+// every valid block the target must hold exactly that block's rows.
+var c16AutoTypes = []string{"LowCardinality(String)", "Array(LowCardinality(String))", "Enum8('a' = 1, 'b' = 2)", "String", "Array(String)", "Nullable(String)",
+	"LowCardinality(Nullable(String))", "Map(String, String)", "Array(Nullable(Int32))", "DateTime64(3)", "UInt64", "Bool", "Array(Enum16('x' = -300, 'y' = 1000))", "FixedString(4)", "UUID"}
+
+func c16AutoTarget(r *core.Run, ci int64) {
+	rng := r.Rand(ci, "auto")
+	ts := c16AutoTypes[int(ci)%len(c16AutoTypes)]
+	t, err := ref.ParseType(ts)
+	if err != nil {
+		return
+	}
+	auto := &proto.ColAuto{}
+	if err := auto.Infer(proto.ColumnType(ts)); err != nil {
+		r.Note("ColAuto cannot infer " + ts)
+		return
+	}
+	res := proto.Results{{Name: "c", Data: auto}}
+	var hist []string
+	r.Eval()
+	fail := func(cls, msg string) {
+		r.Violation("ColAuto-target:"+cls+":"+typeSite(t), fmt.Sprintf("%s: %s after history [%s]", ts, msg, strings.Join(hist, "; ")), map[string]any{"type": ts, "history": hist})
+	}
+	valid, failed := 0, 0
+	for step := 0; step < 3+rng.Intn(8); step++ {
+		n := []int{0, 1, 2, 5, 9}[rng.Intn(5)]
+		vs := val.GenColumn(rng, t, n, val.GenOpt{MaxElem: 3})
+		var w ref.W
+		if err := ref.EncodeBlock(&w, 54460, &ref.Block{Info: ref.BlockInfo{Bucket: -1}, Rows: n, Cols: []ref.Col{{Name: "c", Type: ts, Vals: vs}}}); err != nil {
+			return
+		}
+		data := w.B
+		kind := rng.Intn(5)
+		switch {
+		case kind == 0 && n > 0 && len(data) > 8:
+			data = data[:len(data)-1-rng.Intn(min(len(data)-1, 12))]
+			hist = append(hist, fmt.Sprintf("truncated block (%d rows)", n))
+		case kind == 1 && n > 0 && len(data) > 8:
+			data = append([]byte(nil), data...)
+			for i := 1; i <= 1+rng.Intn(8) && i <= len(data); i++ {
+				data[len(data)-i] = 0xFF
+			}
+			hist = append(hist, fmt.Sprintf("block with its last bytes set to ff (%d rows)", n))
+		case kind == 2:
+			hist = append(hist, "Reset")
+			if p := core.Recover(func() { auto.Reset() }); p != "" {
+				fail("panic", p)
+				return
+			}
+			continue
+		default:
+			hist = append(hist, fmt.Sprintf("valid block (%d rows)", n))
+			kind = 9
+		}
+		var blk proto.Block
+		var derr error
+		if p := core.Recover(func() { derr = blk.DecodeBlock(proto.NewReader(bytes.NewReader(data)), 54460, res) }); p != "" {
+			fail("panic", p)
+			return
+		}
+		if kind != 9 {
+			if derr != nil {
+				failed++
+			}
+			continue // whatever an altered block gave, the next valid one decides
+		}
+		if derr != nil {
+			fail("decode-error", fmt.Sprintf("a valid block of %d rows was rejected: %v", n, derr))
+			return
+		}
+		valid++
+		got, err := val.ReadCol(auto, t)
+		if err != nil {
+			if strings.Contains(err.Error(), "unordered") {
+				continue
+			}
+			fail("row-accessor", err.Error())
+			return
+		}
+		if d := diffVals(vs, got); d != "" {
+			fail("values", "the target does not hold the rows of the block just decoded: "+d)
+			return
+		}
+	}
+	if valid >= 2 || (valid >= 1 && failed >= 1) {
+		r.NonTrivial("auto-target", ts, strings.Join(hist, ";"))
 	}
 }
